@@ -1,6 +1,8 @@
 package redis
 
 import (
+	"slices"
+	"sort"
 	"strings"
 
 	"github.com/New-JAMneration/JAM-Protocol/internal/database"
@@ -27,7 +29,8 @@ func (db *redisDB) NewIterator(prefix []byte, start []byte) (database.Iterator, 
 	allKeys := make([]string, 0, 100)
 	var err error
 
-	pattern := globEscape(startString) + "*"
+	prefixString := string(prefix)
+	pattern := globEscape(prefixString) + "*"
 
 	for {
 		var keys []string
@@ -36,9 +39,9 @@ func (db *redisDB) NewIterator(prefix []byte, start []byte) (database.Iterator, 
 			return nil, err
 		}
 
-		// Filter keys that match the prefix
+		// Keep the keys with the prefix that are not below prefix||start
 		for _, key := range keys {
-			if strings.HasPrefix(key, startString) {
+			if strings.HasPrefix(key, prefixString) && key >= startString {
 				allKeys = append(allKeys, key)
 			}
 		}
@@ -47,6 +50,10 @@ func (db *redisDB) NewIterator(prefix []byte, start []byte) (database.Iterator, 
 			break
 		}
 	}
+
+	// SCAN returns keys in no particular order and may repeat them
+	sort.Strings(allKeys)
+	allKeys = slices.Compact(allKeys)
 
 	// Pre-allocate capacity for keys and values
 	keys := make([][]byte, 0, len(allKeys))
